@@ -120,6 +120,40 @@ def lmodEnvPinned (_caller : Env) (out : Str) : Env := applyAssignments [] (pars
 def lmodExecute (caller : Env) (out : Str) (argv : List Str) : List Str × Env := (argv, lmodEnv caller out)
 def nativeExecute (caller : Env) (argv : List Str) : List Str × Env := (argv, caller)
 
+/-! ### several jobs on one `Lmod` object
+
+The lmod executable is external: its output is a function of the requested modules and of the environment it runs in
+(a prepend is printed as a full assignment computed from the current value).  An environment object serves many jobs;
+`σ` is whatever the object carries from one `execute` to the next. -/
+
+abbrev Loader := List Str → Env → Str
+
+structure Run where
+  mods : List Str
+  caller : Env
+
+/-- the single-run semantics: `execute` as a function of (modules, caller environment) only -/
+def executeEnv (load : Loader) (r : Run) : Env := lmodEnv r.caller (load r.mods r.caller)
+
+/-- a history of executions on one object with per-object state `σ` -/
+def runObj {σ : Type} (step : σ → Run → σ × Env) : σ → List Run → List Env
+  | _, [] => []
+  | s, r :: rs => let (s', e) := step s r; e :: runObj step s' rs
+
+/-- the working tree: `execute` reads `self.modules`, runs lmod, writes nothing on `self` — no state -/
+def stepTree (load : Loader) : Unit → Run → Unit × Env := fun _ r => ((), executeEnv load r)
+
+/-- a memoising variant: lmod is run for the first job only and its output replayed for later jobs -/
+def stepMemo (load : Loader) : Option Str → Run → Option Str × Env
+  | none, r => let src := load r.mods r.caller; (some src, lmodEnv r.caller src)
+  | some src, r => (some src, lmodEnv r.caller src)
+
+/-- an lmod whose only module prepends `dir` to `var` -/
+def prependLoader (var dir : Str) : Loader := fun _ caller =>
+  head ++ '\'' :: var ++ "'] = '".toList ++ (match caller.get var with
+    | some old => dir ++ ':' :: old
+    | none => dir) ++ "';\n".toList
+
 /-! ### what a simulated lmod prints -/
 
 /-- one assignment line as printed by the simulated lmod: `os.environ[<q1>k<q1>] = <q2>v<q2>;` + newline, the
